@@ -415,4 +415,18 @@ theorem rowIdentity_general (h2 : (2 : K) ≠ 0) (cs : List K) (heven : cs.lengt
   field_simp
   ring
 
+/-- with the quadrature-mirror identities exactly, the error term vanishes -/
+theorem errRow_eq_zero (cs : List K) (heven : cs.length % 2 = 0) (hpos : 2 ≤ cs.length) (hq : qmfExact cs)
+    (N : Nat) (f : Nat → K) (x : Nat) : errRow cs N f x = 0 := by
+  have hr := (qmfExact_iff_resid cs).mp hq
+  unfold errRow
+  have h0 : ∀ j ∈ List.range (cs.length - 1),
+      resid cs (lag (cs.length / 2) j) * ext N f (x - (cs.length - 2) + 2 * j) = 0 * 0 := by
+    intro j hj
+    have hj' := List.mem_range.mp hj
+    have hl : lag (cs.length / 2) j < cs.length / 2 := by unfold lag; omega
+    rw [hr _ hl]; ring
+  rw [List.map_congr_left h0]
+  simp
+
 end Mahotas.C17
